@@ -51,6 +51,7 @@ type Frame struct {
 	loopIdx    *ssa.Phi
 	loopPhis   []*ssa.Phi
 	loopNames  map[string]*ssa.Phi
+	loopOuter  map[string]*ssa.Phi // loop-carried names of the enclosing loops only (for outer(x))
 	loopVals   map[string]ssa.Value // source names used inside the loop that denote one value defined outside it
 	loopRange  *ssa.Range
 	curBlock   *ssa.BasicBlock
@@ -750,12 +751,24 @@ func (g *Gen) loopHeader(f *Frame, ci *cfgInfo, b *ssa.BasicBlock, preds []*ssa.
 			}
 		}
 	}
+	outerNames := map[string]*ssa.Phi{}
+	for k, v := range names {
+		outerNames[k] = v
+	}
+	for _, e := range es {
+		for _, ins := range f.fn.Blocks[e.h].Instrs {
+			if phi, ok := ins.(*ssa.Phi); ok && phi.Comment == "rangeindex" {
+				outerNames["loopidx"] = phi // hidden index of the innermost enclosing `range` loop
+			}
+		}
+	}
 	for _, phi := range phis {
 		if phi.Comment != "" && phi.Comment != "rangeindex" {
 			names[phi.Comment] = phi
 		}
 	}
 	f.loopNames = names
+	f.loopOuter = outerNames
 	f.loopVals = g.loopDebugVals(f.fn, ci.loopOf[b.Index])
 	f.loopRange = nil
 	for _, ins := range b.Instrs {
@@ -914,7 +927,7 @@ func (g *Gen) loopHeader(f *Frame, ci *cfgInfo, b *ssa.BasicBlock, preds []*ssa.
 	if f.loopHead == nil {
 		f.loopHead = map[int]*loopCtx{}
 	}
-	lc := &loopCtx{phis: phis, spec: spec, k: k, autos: lcAutos, names: names, rng: f.loopRange, vals: f.loopVals}
+	lc := &loopCtx{phis: phis, spec: spec, k: k, autos: lcAutos, names: names, rng: f.loopRange, vals: f.loopVals, outer: outerNames}
 	if spec != nil && spec.Decreases != nil {
 		v := g.clauseTerm(f, spec.Decreases, f.st, nil)
 		lc.varAtHead = g.defFresh("variant", "Int", v.S)
@@ -1080,6 +1093,7 @@ type loopCtx struct {
 	rng       *ssa.Range
 	names     map[string]*ssa.Phi
 	vals      map[string]ssa.Value
+	outer     map[string]*ssa.Phi
 	autos     map[*ssa.Phi]string
 	phis      []*ssa.Phi
 	spec      *LoopSpec
@@ -1105,6 +1119,7 @@ func (g *Gen) backEdge(f *Frame, from, hdr *ssa.BasicBlock, en string) {
 	}
 	f.loopPhis = lc.phis
 	f.loopNames = lc.names
+	f.loopOuter = lc.outer
 	f.loopVals = lc.vals
 	f.loopRange = lc.rng
 	for _, phi := range lc.phis {
